@@ -1,6 +1,8 @@
 package c17
 
 import (
+	"bytes"
+	"compress/gzip"
 	"fmt"
 	"math"
 	"math/rand"
@@ -287,6 +289,22 @@ func (s *store) mutations(rnd func(id string) *rand.Rand) []mutation {
 			continue
 		}
 		out = append(out, mutation{id: "gzip-truncated/" + name + "/-", class: "gzip-truncated", minAff: 0, rows: -1, modes: []string{cpLast}, file: append([]byte(nil), s.gz[:k]...), note: fmt.Sprintf("exported file cut after %d of %d bytes", k, L)})
+	}
+	// an archive cut (interrupted copy) exactly where a complete row ends: what can be decompressed is well-formed CSV, but
+	// the archive itself is not a complete gzip stream. Built with a flush point after row j.
+	for _, j := range []int{n - 1, n - 2, (n + s.cpHeight(cpMid)) / 2, s.cpHeight(cpMid) + 2} {
+		if j < 2 || j >= n {
+			continue
+		}
+		var buf bytes.Buffer
+		zw := gzip.NewWriter(&buf)
+		_, _ = zw.Write([]byte(s.header + "\n" + strings.Join(s.lines[:j], "\n") + "\n"))
+		_ = zw.Flush()
+		cut := buf.Len()
+		_, _ = zw.Write([]byte(strings.Join(s.lines[j:], "\n") + "\n"))
+		_ = zw.Close()
+		out = append(out, mutation{id: fmt.Sprintf("gzip-truncated/at-row-boundary/r%d", j), class: "gzip-truncated-at-row-boundary", malformed: true, minAff: j, rows: j, modes: []string{cpMid, cpZero},
+			file: append([]byte(nil), buf.Bytes()[:cut]...), note: fmt.Sprintf("gzip stream cut after the flush point that follows row %d of %d", j, n)})
 	}
 	for _, name := range []string{"one-third", "half", "before-trailer"} {
 		k := cuts[name]
